@@ -12,6 +12,7 @@ Verify(needAgree, needSound) == phase = "end" =>
         ty == ATypingWF(kind, val, ptr, order, md)
         macc == alg.errs = <<>> /\ ty.e433 = {}
         tags == (IF \E p \in ptr : IsC(kind, p[1]) THEN {"constptr"} ELSE {})
+                \cup (IF \E p \in ptr : ConstPtrArray(kind, ptr, p) THEN {"constptr-array"} ELSE {})
                 \cup (IF \E a \in r.ok415 \ r.ok416 : \E c \in Below(val, a) : IsC(kind, c)
                       THEN {"const-below-struct-cycle"} ELSE {})
                 \cup (IF ty.e433 # {} THEN {"ptrlen-before-const"} ELSE {})
@@ -20,6 +21,8 @@ Verify(needAgree, needSound) == phase = "end" =>
        /\ needSound => (SoundBody(r, md, order) \/ (PrintT(<<"NOTE", "Sound fails">>) /\ FALSE))
        /\ PrintT(<<"CASE", ToJson([
             kind |-> kind, val |-> PairsOf(val), ptr |-> PairsOf(ptr), perm |-> perm,
+            vfl |-> [x \in 1..Len(PairsOf(val)) |-> Flavour(kind, ptr, PairsOf(val)[x][1], PairsOf(val)[x][2])],
+            pfl |-> [x \in 1..Len(PairsOf(ptr)) |-> Flavour(kind, ptr, PairsOf(ptr)[x][1], PairsOf(ptr)[x][2])],
             acc |-> r.acc,
             ok413 |-> SetToSortSeq(r.ok413, <),
             ok415 |-> SetToSortSeq(r.ok415, <),
